@@ -290,7 +290,11 @@ def r_dqn_family(which, seed, lg):
     return {"result": res}
 
 
-def pendulum(seed, steps=20):
+def pendulum(seed, steps=20, stats=False):
+    # with the statistics wrapper the routines that log episode returns only when info carries them (PETS, TD3+LAP) do log them:
+    # where (episode, step) a statistic is logged is part of the digest
+    if stats:
+        return seed_env(gym.wrappers.RecordEpisodeStatistics(gym.make("Pendulum-v1", max_episode_steps=steps)), seed)
     return make_env("Pendulum-v1", seed, max_episode_steps=steps)
 
 
@@ -311,7 +315,7 @@ def r_ddpg(seed, lg):
 def r_td3(which, seed, lg):
     from rl_blox.algorithm.td3 import create_td3_state, train_td3
     from rl_blox.blox.replay_buffer import LAP, ReplayBuffer
-    env = pendulum(seed)
+    env = pendulum(seed, stats=(which == "td3_lap"))
     st = create_td3_state(env, seed=INIT, **SMALL)
     env = seed_env(env, seed)
     kw = dict(seed=seed, total_timesteps=60, batch_size=8, learning_starts=10, policy_delay=2, logger=lg, progress_bar=False)
@@ -368,7 +372,7 @@ def r_pets(seed, lg):
     from rl_blox.algorithm.pets import create_pets_state, train_pets
     from rl_blox.algorithm.pets_reward_models import pendulum_reward
     from rl_blox.blox.replay_buffer import ReplayBuffer
-    env = pendulum(seed, steps=15)
+    env = pendulum(seed, steps=15, stats=True)
     dyn = create_pets_state(env, seed=INIT, n_ensemble=2, hidden_nodes=[8], batch_size=8)
     env = seed_env(env, seed)
     res = train_pets(env, pendulum_reward, dyn, plan_horizon=3, n_particles=4, n_samples=40, n_opt_iter=2, seed=seed,
